@@ -6,10 +6,11 @@ import Driver.Collective
 import Driver.Equistress
 import Driver.Miner
 import Driver.MaterialLaws
+import Driver.Broadcast
 open PylifeVerif.Driver
 
 /-- All handlers; the first that recognises the op answers. -/
-def handlers : List (List String → Option String) := [handleRainflow, handleHCM, handleFkmNonlinear, handleWoehler, handleCollective, handleEquistress, handleMiner, handleMaterialLaws]
+def handlers : List (List String → Option String) := [handleRainflow, handleHCM, handleFkmNonlinear, handleWoehler, handleCollective, handleEquistress, handleMiner, handleMaterialLaws, handleBroadcast]
 
 def answer (line : String) : String :=
   let toks := (line.splitOn " ").filter (· ≠ "")
